@@ -265,7 +265,8 @@ def run(ck, F, E):
     ck.floor("C17.implicit-array access sites", n_sites, 1)
     mc = callers_of(F, "Arrays::maybe_create_default_array")
     names = sorted({b.path for b, _ in mc})
-    ck.require(all(sfx(n, "Arrays::get_value_at_index") or sfx(n, "Arrays::set_value_at_index") for n in names),
+    from lib import allowed_via_callers
+    ck.require(all(allowed_via_callers(F, n, ("Arrays::get_value_at_index", "Arrays::set_value_at_index")) for n in names),
                "C17:WARN:implicit-creators", "warn before create", "implicit creation happens only in %s" % names,
                "maybe_create_default_array gained a caller: %s" % names)
     ml = get_fn(ck, F, "Interpreter::maybe_log_warning_about_undeclared_array_use")
